@@ -91,6 +91,8 @@ type server struct {
 	shutdown  bool // Shutdown() called on the current incarnation
 	pendVoteT uint64
 	havePendV bool
+	pendVoteC string
+	havePendC bool
 	sinceSnapClose bool
 	truncSinceCreate bool
 	burned    uint64
@@ -280,7 +282,7 @@ func (c *checker) lifecycle(e *sim.Ev) {
 		s.up = false
 		s.state = Follower
 		s.disk.dropUnfinished()
-		s.havePendV = false
+		s.havePendV, s.havePendC = false, false
 		s.shutdown = false
 		c.cov("crash:" + crashKind(e.X))
 		// open leadership of the crashed incarnation ends
